@@ -108,6 +108,24 @@ CHECKS = {
               'stand-in pdftk; year carried and used.'),
         note='Trusted: tools/pdftk stand-in; enumerations compared by (class name, member name, value) because forms create per-instance enum classes.',
         design='3/C14'),
+    'C15': dict(
+        category='exploration',
+        technique='validity predicates (balance equations, non-negativity of floored/named lines) over solved generated returns, with personas biased to each dominating branch; the non-negative set is derived at run time from zero floors parsed out of the template text plus a sourced table',
+        text=('Solved 2021-2023 returns (owing, refund, refund applied, deductions above income, credits above tax, NC taxable income below zero, '
+              '8606) are checked for 34-37 = 33-24, not both positive, 35a+36 = 34, the NC counterparts, and >= 0 for every line whose official '
+              'text carries a zero floor or that data/nonneg_lines.json names (with category); ratios stay in [0,1]. Evidence counts how often '
+              'each floor was active.'),
+        note='Trusted: the scenario generator draws non-negative amounts; data/nonneg_lines.json; hx/instr.py floor detection.',
+        design='3/C15'),
+    'C16': dict(
+        category='exploration',
+        technique='metamorphic relations on pairs of solved returns: instance renumbering (all permutations up to 3 copies), wage / deduction / withholding increments',
+        text=('Each solved base return is transformed and re-solved: renumbering W-2/1099/1098 copies must leave every line equal (1 cent; NC 1 '
+              'dollar) and Schedule B rows equal as a multiset; W-2 wages + delta must not lower total tax (federal, NC); each deductible input '
+              '+ delta must not raise it; each withholding/payment input + delta must move refund-minus-owed by exactly delta. Pairs whose '
+              'second return does not solve are dropped and counted.'),
+        note='Trusted: lists of deductible and withholding inputs in checks/c16.py; tolerance 0.011 (float summation order).',
+        design='3/C16'),
     'C17': dict(
         category='exploration',
         technique='exhaustive enumeration of (year, form class, instance) and (threshold table, status) with structural predicates; CLI listings parsed back with a strict configparser (round trip)',
